@@ -170,4 +170,8 @@ example :
     (request o a.1 ⟨.up, none⟩ .none).1.last = 3 ∧
     (request o (request o a.1 ⟨.up, none⟩ .none).1 ⟨.down, none⟩ .none).1.schema = [] := by decide
 
+/-- the behavioural probes of /repo that feed the generated tables this property rests on could all be run
+(a probe that fails leaves its table empty and is named in `Generated.probeFailures`) -/
+theorem probes_ok : ¬ ("mongo" ∈ Generated.probeFailures) ∧ ¬ ("sqlOrders" ∈ Generated.probeFailures) := by decide
+
 end Vakt.C18
